@@ -332,6 +332,31 @@ inline void build_generators() {
                       ":bits" + std::to_string(bits),
                   g, c);
         }
+  // H2. explicit quantization with NON-ZERO origins (an origin that is lost on its way through the string-valued options
+  // then changes the stream; with the all-zero origins of H it would not)
+  for (int method : {0, 1})
+    for (int mesh : {0, 1}) {
+      if (mesh && method == 1) continue;
+      GeomDef g;
+      g.is_mesh = mesh != 0;
+      g.num_points = 4;
+      if (mesh) g.faces = {{0, 1, 2}, {2, 1, 3}};
+      AttDef pos, gen4;
+      pos.type = GeometryAttribute::POSITION; pos.dt = DT_FLOAT32; pos.nc = 3; pos.uid = 0;
+      gen4.type = GeometryAttribute::GENERIC; gen4.dt = DT_FLOAT32; gen4.nc = 4; gen4.uid = 1;
+      for (int i = 0; i < 4; ++i) {
+        pos.entries.push_back(bytes_of(std::vector<float>{i * 0.25f, 1.f - i * 0.125f, 0.5f}));
+        gen4.entries.push_back(bytes_of(std::vector<float>{0.1f * i, 0.9f - 0.2f * i, 0.5f, 0.25f * i}));
+      }
+      g.atts = {pos, gen4};
+      EncCfg c;
+      c.method = method;
+      c.speed_enc = c.speed_dec = 3;
+      c.qbits = {11, 9};
+      c.explicit_q[0] = {std::vector<float>{-0.5f, -0.25f, 0.125f}, 2.f};
+      c.explicit_q[1] = {std::vector<float>{-1.5f, -0.75f, 0.25f, -0.125f}, 4.f};
+      add_gen(std::string("H2:explicit_q_nonzero_origin:") + (mesh ? "mesh" : "cloud") + ":m" + std::to_string(method), g, c);
+    }
   // M. geometry + attribute metadata
   for (int md : {1, 2})
     for (int kind = 0; kind < 4; ++kind) {
